@@ -328,6 +328,19 @@ func loadKnown() {
 // of the current property, and counts it if so.  Fixed entries suppress
 // nothing.
 func IsKnown(key string) bool {
+	// development aid (never set by registered commands): tolerate every key with a
+	// prefix so that one exploratory run lists all distinct signatures behind the first
+	if p := os.Getenv("VERIF_DEV_TOLERATE_PREFIX"); p != "" && strings.HasPrefix(key, p) {
+		E.mu.Lock()
+		h := E.Known[key]
+		if h == nil {
+			h = &KnownHit{Key: key, What: "DEV-TOLERATED"}
+			E.Known[key] = h
+		}
+		h.Count++
+		E.mu.Unlock()
+		return true
+	}
 	for _, k := range known {
 		if k.Property == Cfg.ID && k.Status == "open" && k.Key == key {
 			E.mu.Lock()
